@@ -59,6 +59,7 @@ def pGOp (toks : List String) : Option GOp :=
   | ["unblind", pre, sel, idx, stat] => some (.unblind (pCfg pre sel idx stat))
   | ["unblindAdopt", pre, sel, idx, stat] => some (.unblindAdopt (pCfg pre sel idx stat))
   | ["evaluate", fields] => some (.evaluate (pCols fields))
+  | ["resetCache"] => some .resetCache
   | _ => none
 
 def fON : Option Nat → String
